@@ -4,7 +4,7 @@ use nom::{
     branch::alt,
     bytes::complete::{escaped, tag, take_while, take_while1},
     character::complete::{char, digit1, satisfy},
-    combinator::{cut, map, opt, recognize, value},
+    combinator::{cut, map, map_opt, opt, recognize, value},
     error::{Context, ContextError, FromExternalError, ParseError, context},
     multi::{many1, separated_list0},
     number::complete::double,
@@ -199,7 +199,8 @@ fn parse_value<'a, E: HashParseError<&'a str>>(input: &'a str) -> IResult<&'a st
             parse_array,
             map(parse_colon_key, Value::from),
             map(parse_bytes, Value::Bytes),
-            map(double, |value| Value::Float(NotNan::new(value).unwrap())),
+            // `double` also accepts "NaN", which a `Value` cannot hold: it is not a number here.
+            map_opt(double, |value| NotNan::new(value).ok().map(Value::Float)),
             map(parse_boolean, Value::Boolean),
         )),
     )
